@@ -37,20 +37,35 @@ WellFormedOnX(op, tc) ==
          /\ ReqP(op.p) \subseteq tc \cup Cols(op.fixed)
     ELSE WellFormedOn(op, tc)
 
+\* A partial join whose common columns are not resolved yet (Join() as constructed, min_columns #
+\* max_columns) resolves them against the relation it is applied to: the shared key columns.
+ResolveOn(op, cols) ==
+    IF op.o = "pjoin" /\ ~op.res
+    THEN [op EXCEPT !.common = {c \in cols \cap Cols(op.fixed) : IsKey(c)}, !.res = TRUE]
+    ELSE op
+
 \* C04 for one (cur, new, commutator k) on targets with columns tc
 CommuteLaw(new, cur, k, tc, targets) ==
+    LET newHere == ResolveOn(new, OpColsX(cur, tc))        \* the new operation where it was requested
+    IN
     IF k.first.o # "none"
-    THEN /\ WellFormedOnX(k.first, tc)
-         /\ k.second.o = "id" \/ WellFormedOnX(k.second, OpColsX(k.first, tc))
-         /\ ~k.done => WellFormedOnX(new, OpColsX(k.second, OpColsX(k.first, tc)))
+    THEN LET f == ResolveOn(k.first, tc)
+             c1 == OpColsX(f, tc)
+             s == ResolveOn(k.second, c1)
+             c2 == OpColsX(s, c1)
+             again == ResolveOn(new, c2)
+         IN
+         /\ WellFormedOnX(f, tc)
+         /\ s.o = "id" \/ WellFormedOnX(s, c1)
+         /\ ~k.done => WellFormedOnX(again, c2)
          /\ \A T \in targets :
-              LET s2 == ApplyX(k.second, ApplyX(k.first, T))
-                  final == IF k.done THEN s2 ELSE ApplyX(new, s2)
+              LET s2 == ApplyX(s, ApplyX(f, T))
+                  final == IF k.done THEN s2 ELSE ApplyX(again, s2)
               IN \* a join has no row order of its own (only the SQL engine evaluates joins): multisets
-                 IF new.o = "pjoin" THEN SameBag(final, ApplyX(new, ApplyX(cur, T)))
-                 ELSE final = ApplyX(new, ApplyX(cur, T))
+                 IF new.o = "pjoin" THEN SameBag(final, ApplyX(newHere, ApplyX(cur, T)))
+                 ELSE final = ApplyX(newHere, ApplyX(cur, T))
     ELSE /\ k.second = cur
-         /\ k.done => \A T \in targets : ApplyX(new, ApplyX(cur, T)) = ApplyX(cur, T)
+         /\ k.done => \A T \in targets : ApplyX(newHere, ApplyX(cur, T)) = ApplyX(cur, T)
 
 \* finding F2 (open): Projection.commute moves a projection upstream of a
 \* Deduplication (pinned by tests/test_projection.py)
